@@ -136,6 +136,7 @@ def run(prog, rep, tier):
                ("only_directed", "only_undirected", "skeleton", "directed_edges", "undirected_edges", "edge_weights",
                 "induced_subgraph", "is_clique", "is_complete", "degrees", "vstructures", "moral_graph")]
     pattern_entries(prog, rep, entries, not_charged=(U + "topological_ordering", U + "is_dag"))
+    empty_index_arrays(rep, prog, [q_ for q_, _ in entries], "INDEX.empty-array")
     rep.require_count("PAT.entry", 12)
     rep.exhaustive = True
     rep.assume("input domain of the tables: binary PDAGs and DAG weight matrices of any sign (8 admissible entry pairs)")
